@@ -23,7 +23,7 @@ CONSTANTS Mode, Seed, K, FormsPer,
           Years,        \* set of years
           Days,         \* set of <<month, day>>
           Times,        \* set of <<hour, minute, second, fraction digits>>
-          Offsets,      \* sequence of <<kind (0 none, 1 fixed), seconds>>
+          Offsets,      \* sequence of <<kind (0 none, 1 fixed, 2 named zone), seconds (kind 2: index into Zones)>>
           Writers,      \* set of writer names
           DurTexts,     \* sequence of duration texts (code points)
           AnchorLits,   \* sequence of literal texts (without the # marks), used by "diff" and mode "dur"
@@ -58,7 +58,7 @@ OffText(style, off) ==
   IN CASE style = 2 -> sg \o PadNum(hh, 2) \o PadNum(mm, 2)
        [] style = 3 /\ hh < 10 -> sg \o NumText(hh) \o COL \o PadNum(mm, 2)
        [] OTHER -> sg \o PadNum(hh, 2) \o COL \o PadNum(mm, 2)
-OffSuffix(c, style) == IF c.ok = 0 THEN <<>> ELSE SPC \o OffText(style, c.off)
+OffSuffix(c, style) == IF c.ok = 0 THEN <<>> ELSE IF c.ok = 2 THEN SPC \o Zones[c.off] ELSE SPC \o OffText(style, c.off)
 
 \* fraction styles: 1 = as given, 2 = padded to nine digits
 FracStyle(fr, style) == IF fr = <<>> \/ style = 1 \/ Len(fr) >= 9 THEN fr ELSE fr \o [i \in 1..(9 - Len(fr)) |-> 0]
@@ -107,7 +107,7 @@ Applicable(w, c) ==
     [] w \in {"isoT", "iso", "ord", "ymd12", "ymd24"} -> TRUE
     [] OTHER -> TRUE
 
-ExpInst(c) == InstantOf(DaysFromCivil(c.y, c.mo, c.dd), c.hh * 3600 + c.mi * 60 + c.ss - c.off, FracNanos(c.fr))
+ExpInst(c) == InstantOf(DaysFromCivil(c.y, c.mo, c.dd), c.hh * 3600 + c.mi * 60 + c.ss - (IF c.ok = 1 THEN c.off ELSE 0), FracNanos(c.fr))
 
 C0 == [y |-> 0, mo |-> 0, dd |-> 0, hh |-> 0, mi |-> 0, ss |-> 0, fr |-> <<>>, ok |-> 0, off |-> 0,
        h12 |-> -1, wd |-> 0, ord |-> -1, oi |-> 0, mut |-> "none", expect |-> "one"]
@@ -187,7 +187,7 @@ Mutate(m, c) ==
 -----------------------------------------------------------------------------
 Init == stage = "date" /\ x = C0 /\ lit = <<>> /\ q = <<>> /\ form = "none"
 
-PickDate == /\ stage = "date"
+PickDate == /\ stage = "date" /\ Mode # "dur"
             /\ \E y \in Years : \E md \in Days :
                  /\ ValidCivil(y, md[1], md[2])
                  /\ x' = [x EXCEPT !.y = y, !.mo = md[1], !.dd = md[2]]
@@ -196,7 +196,8 @@ PickTime == /\ stage = "time"
             /\ \E t \in Times : x' = [x EXCEPT !.hh = t[1], !.mi = t[2], !.ss = t[3], !.fr = t[4]]
             /\ stage' = "offset" /\ UNCHANGED <<lit, q, form>>
 PickOffset == /\ stage = "offset"
-              /\ \E i \in DOMAIN Offsets : x' = [x EXCEPT !.ok = Offsets[i][1], !.off = Offsets[i][2], !.oi = i]
+              /\ \E i \in DOMAIN Offsets : x' = [x EXCEPT !.ok = Offsets[i][1], !.off = Offsets[i][2], !.oi = i,
+                                                          !.expect = IF Offsets[i][1] = 2 THEN "zoned" ELSE "one"]
               /\ stage' = "writer" /\ UNCHANGED <<lit, q, form>>
 \* grid: write the instant in one pattern; keep the literal when its hash falls on residue 0
 PickWriter == /\ stage = "writer" /\ Mode = "grid"
@@ -213,7 +214,7 @@ PickMutation == /\ stage = "writer" /\ Mode = "bad"
                 /\ stage' = "form" /\ UNCHANGED q
 PickForm == /\ stage = "form" /\ Mode = "grid"
             /\ LET h == Hash(x, form) \div K IN
-               \E j \in 0..FormsPer :
+               \E j \in 0..(IF x.ok = 2 THEN 0 ELSE FormsPer) :      \* named zone: the literal alone (its instant is not specified)
                  q' = MakeQuery(IF j = 0 THEN "lit" ELSE Forms[((h + j - 1) % Len(Forms)) + 1], lit, h + j)
             /\ stage' = "done" /\ UNCHANGED <<x, lit, form>>
 BadForm == /\ stage = "form" /\ Mode = "bad"
@@ -226,8 +227,7 @@ DurForm == /\ stage = "date" /\ Mode = "dur"
                 /\ lit' = AnchorLits[a]
            /\ stage' = "done" /\ UNCHANGED <<x, form>>
 
-Next == IF Mode = "dur" THEN DurForm
-        ELSE PickDate \/ PickTime \/ PickOffset \/ PickWriter \/ PickMutation \/ PickForm \/ BadForm
+Next == DurForm \/ PickDate \/ PickTime \/ PickOffset \/ PickWriter \/ PickMutation \/ PickForm \/ BadForm
 Spec == Init /\ [][Next]_vars
 
 -----------------------------------------------------------------------------
@@ -237,6 +237,8 @@ RoundTrip ==
     \E s \in {Summary} :
       CASE x.expect = "one" -> /\ ~s.silent /\ s.ninvalid = 0 /\ {r.inst : r \in s.valid} = {ExpInst(x)}
                                /\ \A r \in s.valid : r.c = "fixed" /\ ~r.soft /\ r.win = 0
+        [] x.expect = "zoned" -> /\ ~s.silent /\ s.ninvalid = 0 /\ {r.inst : r \in s.valid} = {ExpInst(x)}
+                                 /\ \A r \in s.valid : r.c = "zoned" /\ r.win = 0
         [] x.expect = "refuse" -> ~s.silent /\ s.valid = {}
         [] x.expect = "soft" -> ~s.silent /\ s.valid # {} /\ \A r \in s.valid : r.soft
         [] x.expect = "win" -> ~s.silent /\ s.valid # {} /\ \A r \in s.valid : r.win = 1
